@@ -52,6 +52,12 @@ func typeIs(t types.Type, pkgPath, name string) bool {
 func calleeName(c *ssa.CallCommon) (pkg, name string) {
 	if c.IsInvoke() {
 		n := namedOf(c.Value.Type())
+		if theCtx != nil && n != nil {
+			// a narrow interface of the module that only ever holds one dependency is named as it
+			if src := theCtx.narrowSource(n); src != nil {
+				n = src
+			}
+		}
 		if n != nil && n.Obj().Pkg() != nil {
 			return n.Obj().Pkg().Path(), n.Obj().Name() + "." + c.Method.Name()
 		}
@@ -1263,6 +1269,8 @@ func (cx *Ctx) narrowIfaceOf(n *types.Named) string {
 	}
 	if cx.narrow == nil {
 		cx.narrow = map[*types.TypeName]string{}
+		cx.narrowSrc = map[*types.TypeName]*types.Named{}
+		srcT := map[*types.TypeName]*types.Named{}
 		srcs := map[*types.TypeName]map[string]bool{}
 		kindOf := func(t types.Type) string {
 			sn := namedOf(t)
@@ -1296,6 +1304,9 @@ func (cx *Ctx) narrowIfaceOf(n *types.Named) string {
 				srcs[dn.Obj()] = map[string]bool{}
 			}
 			srcs[dn.Obj()][kindOf(src)] = true
+			if sn := namedOf(src); sn != nil {
+				srcT[dn.Obj()] = sn
+			}
 		}
 		var scan func(f *ssa.Function)
 		scan = func(f *ssa.Function) {
@@ -1323,10 +1334,34 @@ func (cx *Ctx) narrowIfaceOf(n *types.Named) string {
 				for k := range ks {
 					if k != "?" {
 						cx.narrow[tn] = k
+						cx.narrowSrc[tn] = srcT[tn]
+						if k == "store" {
+							cx.narrowSrc[tn] = cx.kvStoreNamed(srcT[tn])
+						}
 					}
 				}
 			}
 		}
 	}
 	return cx.narrow[n.Obj()]
+}
+
+// narrowSource: the dependency type a narrow interface stands for (nil if none).
+func (cx *Ctx) narrowSource(n *types.Named) *types.Named {
+	if cx.narrowIfaceOf(n) == "" {
+		return nil
+	}
+	return cx.narrowSrc[n.Obj()]
+}
+
+// kvStoreNamed: calls on a store behind a narrow interface are named KVStore.<Method>.
+func (cx *Ctx) kvStoreNamed(fallback *types.Named) *types.Named {
+	if pk := cx.P.ByPath[storeTypesPath]; pk != nil && pk.Types != nil {
+		if tn, ok := pk.Types.Scope().Lookup("KVStore").(*types.TypeName); ok {
+			if nn, ok := tn.Type().(*types.Named); ok {
+				return nn
+			}
+		}
+	}
+	return fallback
 }
